@@ -183,7 +183,9 @@ def run(case, j):
             ok = q > 1e-12 * (xs**2).sum(axis=1) / ev[-1]
             want = 1.0 / q
             got = np.asarray(LPR[si])
-            j.ok("LPR strictly positive and finite", bool(np.all(np.isfinite(got)) and np.all(got > 0)), got)
+            # an exactly vanishing environment vector (whole-number data) has rigidity 1/0 by definition
+            j.ok("LPR strictly positive and finite", bool(np.all(np.isfinite(got[ok])) and np.all(got > 0)), got)
+            null_block |= bool(np.any((xs**2).sum(axis=1) == 0))
             j.close("LPR == 1 / (x (S^T S + alpha I)^-1 x^T)", got[ok], want[ok], rtol * want[ok])
             j.note("lpr_values_judged", int(ok.sum()))
             xm = X.mean(axis=0) / s
